@@ -80,6 +80,7 @@ impl C19 {
                     && !super::c03::degenerate(pool, &rs)
                     && offer <= rs[i]
                     && rs.iter().all(|x| *x >= 1_000_000)
+                    && xs.iter().all(|x| x <= &BigUint::from(10u64).pow(30))
                     && pool.status.swaps_enabled;
                 if inside {
                     c.stats.bump("probe.c19.quote_refused_inside_range");
@@ -270,6 +271,24 @@ impl Monitor for C19 {
                     let rs = order(&p1.pool_info);
                     if let Some((xs, _)) = normalise(&rs, &p1.pool_info.asset_decimals) {
                         if !within_stated_skew(&xs) {
+                            // outside the stated range the contract may refuse, but a deposit it accepts is
+                            // never minted from a grossly wrong invariant: within two parts in 10^4 (ill-
+                            // conditioned, extremely skewed first deposits were seen to lose 1.5 x 10^-6, cf. S9; dust pools are left alone)
+                            if !super::c03::degenerate(&p1.pool_info, &rs) || rs.iter().all(|x| *x >= 1000) {
+                                let st = Stable::new(amp, rs.len());
+                                if let Some(d) = st.d_scaled(&xs) {
+                                    let lo = &d / res();
+                                    let sb = BigUint::from(supply(&post.bal, &p1.pool_info.lp_denom));
+                                    let diff = if sb > lo { &sb - &lo } else { &lo - &sb };
+                                    c.stats.bump("probe.c19.first_mint_checked_outside_range");
+                                    if &diff * BigUint::from(5_000u32) > lo.clone() + BigUint::from(320_000u64) {
+                                        return Err(viol(
+                                            "C19.mint_invariant_grossly_wrong",
+                                            format!("first deposit {:?} (decimals {:?}, amp {amp}) minted total {sb} LP, exact invariant {lo}: off by more than two parts in ten thousand", rs, p1.pool_info.asset_decimals),
+                                        ));
+                                    }
+                                }
+                            }
                             return Ok(());
                         }
                         let st = Stable::new(amp, rs.len());
